@@ -196,6 +196,7 @@ def _spawn(args, hash_seed, env_extra=None):
     k_ = HASH_SEEDS.index(int(hash_seed)) if int(hash_seed) in HASH_SEEDS else int(hash_seed) % 16
     env['TZ'] = TZ_CLASSES[k_ % len(TZ_CLASSES)]
     env['VERIF_CPU_COUNT'] = str(CPU_CLASSES[k_ % len(CPU_CLASSES)])
+    env['VERIF_DRANGE_REAL_DT'] = '1' if k_ % 4 == 3 else '0'      # see sim/seams.py: exact-type tests against datetime
     if env_extra:
         env.update(env_extra)
     return subprocess.Popen([PY, CHECK] + args, env=env, cwd=VERIF, stdout=subprocess.PIPE, stderr=subprocess.STDOUT, text=True, preexec_fn=_no_aslr)
